@@ -188,6 +188,10 @@ package bus
 //@   trusted
 //@   pure
 //@   ensures result != nil
+//@ ghostfield decfail bool
+//@ interface (c Client) Call(cancel <-chan struct{}, serviceID uint32, objectID uint32, actionID uint32, payload []byte) (result []byte, err error)
+//@   trusted
+//@   modifies everything
 //@ interface (c Client) Channel() (result Channel)
 //@   trusted
 //@   pure
